@@ -92,6 +92,23 @@ Definition gz_of_bool (b : bool) : gz := if b then gz1 else gz0.
 Definition gz_marker (n : nat) (P : list (list gz)) (a b : list gz) : option (list Z) :=
   if wf_shape gz n P a b then Some (lmarker gz Z gz0 gzadd gzmul gzim n P a b) else None.
 
+(* ---------- decidable check of the property's hypothesis on the exact input ----------
+   The harness hands in Pz with P = Pz / D.  P is a Hermitian projector iff Pz^* = Pz and
+   Pz Pz = D Pz.  Run by K on every exact case (so every compared case is an instance of the
+   hypotheses of the theorems in Props/C18.v; soundness: Proofs/MarkerBridge.v gz_projb_sound). *)
+Definition gz_eqb (a b : gz) : bool := Z.eqb (fst a) (fst b) && Z.eqb (snd a) (snd b).
+Definition gz_entry (P : list (list gz)) (i j : nat) : gz := nthd gz gz0 (nthr gz P i) j.
+Definition all2n (n : nat) (f : nat -> nat -> bool) : bool :=
+  forallb (fun i => forallb (fun j => f i j) (seq 0 n)) (seq 0 n).
+Definition gz_hermb (n : nat) (P : list (list gz)) : bool :=
+  all2n n (fun i j => gz_eqb (gz_entry P i j) (gzconj (gz_entry P j i))).
+Definition gz_idemb (n : nat) (D : Z) (P : list (list gz)) : bool :=
+  let PP := mm gz gz0 gzadd gzmul n P P in
+  all2n n (fun i j => gz_eqb (gz_entry PP i j) (gzmul (D, 0) (gz_entry P i j))).
+Definition gz_projb (n : nat) (D : Z) (P : list (list gz)) : bool :=
+  wf_shape gz n P [] [] || (Nat.eqb (length P) n && forallb (fun r => Nat.eqb (length r) n) P)
+  && gz_hermb n P && gz_idemb n D P.
+
 (* chern_number.py:22-24  theta = [positions < crosshair]  — STRICT comparison.
    xs, X (and ys, Y) are scaled by the same positive power of two, so the comparison
    of the scaled integers is the comparison of the floats. *)
